@@ -167,9 +167,14 @@ def model_search_filterpos(ctx, binp):
             "(from_row 1 0 0 1 120 120) 9 (-4) 9 (-4)).\n")
     rcode, out = ctx.coq_eval('search_filterpos', body, ['Model.Base', 'Model.Render', 'Gen.LeafFilterPos', 'Model.FilterPos'], timeout=120)
     v = ctx.parse_N_list(out) if rcode == 0 else None
-    if not v or not any(v):
+    body2 = ("Eval vm_compute in (filterpos_verdicts2 (mk_irect (-60) (-70) 40 30) (mk_irect (-80) (-80) 600 600) (-120) (-120) 9 (-4) 9 (-4)).\n")
+    rcode2, out2 = ctx.coq_eval('search_filterpos2', body2, ['Model.Base', 'Model.Render', 'Gen.LeafFilterPos', 'Model.FilterPos'], timeout=120)
+    v2 = ctx.parse_N_list(out2) if rcode2 == 0 else None
+    v = (v or [0, 0, 0, 0]) + (v2 or [0, 0, 0])
+    if not any(v):
         return None
-    names = ['C13_turbulence_offset_invariant', 'C13_point_light_equivariant', 'C13_spot_light_equivariant', 'C13_turbulence_phase_equivariant']
+    names = ['C13_turbulence_offset_invariant', 'C13_point_light_equivariant', 'C13_spot_light_equivariant', 'C13_turbulence_phase_equivariant',
+             'C13_subregion_clip_equivariant', 'C13_tile_origin_equivariant', 'C13_feimage_placement_equivariant']
     name = names[[i for i, x in enumerate(v) if x][0]]
     inp = dict(light=[30, 30], region=[-80, -80, 600, 600], layer_ts=[1, 0, 0, 1, 120, 120], frame_move=[9, -4])
     outs = ctx.rvh_batch(binp, 'c13-light', ["point;30,30,10,0,0,0;-80,-80,600,600;1,0,0,1,120,120", "point;30,30,10,0,0,0;-71,-84,600,600;1,0,0,1,129,116",
@@ -184,7 +189,8 @@ def run(ctx):
         "tiny-skia (rasteriser, shaders, draw_pixmap): unmodelled; its translation equivariance is observed by the pixel oracle only",
         "tiny_skia_path::Rect::to_int_rect, IntRect::from_xywh/from_ltrb hand-modelled, tied by the layer-trace correspondence",
         "filter primitives: light-source mapping, turbulence offset / sample point and the placement of the result on the layer are "
-        "source-derived (Gen/LeafFilterPos.v) and tied by c13-light; sub-regions, feTile, feImage, feOffset and pattern phase are observed by the pixel oracle only",
+        "source-derived (Gen/LeafFilterPos.v) and tied by c13-light; the clip sub-region, feTile origin, feImage placement, feOffset scaling and the pattern shader "
+        "transform are source-derived too (tie: regenerated definitions + anchors; no separate hook, the pixel oracle observes them end to end)",
     ]
     ctx.assumptions = [
         "device boxes within +-2^29 (no i32 saturation)",
